@@ -11,7 +11,6 @@ use anyhow::bail;
 use crate::config::OutputStreamControl;
 use crate::diff::DiffLine;
 use crate::formatln;
-use crate::lossy_string;
 use crate::newline::BytesNewline;
 use crate::newline::SplitLinesByNewline;
 use crate::newline::StringNewline;
@@ -44,16 +43,11 @@ pub(super) trait OutcomeTestGenerator {
 
 impl Outcome {
     fn generate_testcase_expression(&self) -> String {
-        // prepend by command
-        let expression_lines = self.testcase.shell_expression.as_bytes();
-        let expression_lines = expression_lines.split_at_newline();
-        let mut generated = format!("$ {}", lossy_string!(&expression_lines[0].assure_newline()));
-        expression_lines.iter().skip(1).for_each(|line| {
-            generated.push_str(&format!(
-                "> {}",
-                lossy_string!(&(&line[..]).assure_newline())
-            ))
-        });
+        // prepend by command; every line feed of the expression starts a
+        // continuation line, also a final one, and an empty expression is a line
+        let mut expression_lines = self.testcase.shell_expression.split('\n');
+        let mut generated = formatln!("$ {}", expression_lines.next().unwrap_or_default());
+        expression_lines.for_each(|line| generated.push_str(&formatln!("> {}", line)));
         generated
     }
 
